@@ -132,6 +132,10 @@ class Importer:
                         elif isinstance(token, SignatureToken):
                             node.last_signature_nodes.update(node)
 
+                if not self._next_stage_parents:
+                    # every spine path has been terminated: no cell may follow (only global comments or new headers)
+                    self._prev_stage_parents = []
+
                 if is_barline:
                     self._document.measure_start_tree_stages.append(self._tree_stage)
                     self.last_measure_number = len(self._document.measure_start_tree_stages)
